@@ -170,7 +170,7 @@ func Run(r io.Reader, module string, ads []Adapter, opt Options) ([]*Summary, er
 	var calls []tla.Value
 	parents := map[string][]parent{}
 	inits := map[string]*tla.Value{}  // initial states (states nobody discovered), by key
-	graph := map[string][]tla.Value{} // state key -> transitions (kept only when random walks are requested)
+	graph := map[string]string{} // state key -> text of its transitions (kept only when random walks are requested; parsed per walk step: the parsed graph of a thorough model took tens of GB)
 	states := map[string]*tla.Value{}
 
 	jobs := make(chan *job, opt.Workers*2)
@@ -333,7 +333,7 @@ func Run(r io.Reader, module string, ads []Adapter, opt Options) ([]*Summary, er
 						goto next
 					}
 					if opt.Walks > 0 {
-						graph[key] = trs
+						graph[key] = strings.Clone(v.F("r").Raw)
 						cp := *s
 						states[key] = &cp
 					}
@@ -679,7 +679,7 @@ func ReplayOne(ad Adapter, initRaw, stateRaw string, history []string, callRaw, 
 }
 
 // runWalks performs random walks over the model graph on long-lived instances.
-func runWalks(ads []Adapter, calls []tla.Value, graph map[string][]tla.Value, states, inits map[string]*tla.Value,
+func runWalks(ads []Adapter, calls []tla.Value, graph map[string]string, states, inits map[string]*tla.Value,
 	cols []*collector, cnt []*counters, opt Options, setWhat func(any), setBusy func(bool)) {
 	var initKeys []string
 	for k := range inits {
@@ -705,7 +705,12 @@ func runWalks(ads []Adapter, calls []tla.Value, graph map[string][]tla.Value, st
 				defer func() { inst.Close() }()
 				var hist []string
 				for step := 0; step < opt.WalkLen; step++ {
-					trs := graph[key]
+					var trs []tla.Value
+					if raw := graph[key]; raw != "" {
+						if pv, perr := tla.Parse(raw); perr == nil {
+							trs = pv.E
+						}
+					}
 					if len(trs) == 0 {
 						break // frontier state: never expanded by the model
 					}
